@@ -145,6 +145,7 @@ class Gen:
             if r.random() < 0.1:
                 opts.append(("hdr", r.choice(["0", "1"])))
             opts += [("var", v, None) for v in self.nvars]
+            opts += [("fn", "get", [("str", v)], []) for v in self.nvars[:1]]
             return r.choice(opts)
         f = r.choice(["add", "subtract", "multiply", "int", "length", "count_lines", "line_number", "mod", "round", "minus", "count_scans", "total_lines", "float", "divide", "count_headers", "count_headers_in_line"])
         if f in ("add", "multiply"):
@@ -200,8 +201,11 @@ class Gen:
                 ("hdr", r.choice(ALLH)),
                 ("eq", ("hdr", "c"), ("str", r.choice(STR_TERMS))),
                 ("eq", ("hdr", "a"), ("int", r.choice(INT_TERMS))),
+                ("fn", r.choice(["header_name", "header_index"]), r.choice([[("int", r.choice([0, 1, 3, 7]))], [("str", r.choice(["a", "c", "zz"]))], [("int", r.choice([0, 2])), ("str", r.choice(["a", "c"]))], [("str", r.choice(["b", "d", "zz"])), ("int", r.choice([1, 3]))]]), []),
             ]
             opts += [("var", v, None) for v in (self.nvars + self.svars)[:3]]
+            opts += [("fn", "get", [("str", v)], []) for v in (self.nvars + self.svars)[:2]]
+            opts += [("fn", "get", [("str", v), ("int", r.choice([0, 1, 5]))], []) for v in self.stacks[:1]]
             return r.choice(opts)
         fs = ["not", "and", "or", "gt", "lt", "above", "below", "equals", "between", "from_to", "beyond", "in", "empty", "exists", "starts_with", "eqn", "eqs", "all", "missing", "inside", "outside", "range", "after", "before", "eqnn", "regex", "exact"]
         f = r.choice(fs)
@@ -226,9 +230,22 @@ class Gen:
         if f in ("between", "from_to", "beyond", "inside", "outside", "range"):
             return ("fn", f, [self.num(d - 1), self.num(d - 1), self.num(d - 1)], [])
         if f == "in":
-            if r.random() < 0.6:
+            c = r.random()
+            if c < 0.4:
                 return ("fn", "in", [("hdr", r.choice(STRH)), ("str", r.choice(["abc|x", "Q|ab|zz", "x", "abc | x"]))], [])
-            return ("fn", "in", [("hdr", r.choice(NUMH)), ("str", r.choice(["1|5|10", "0|2|3", "9"]))], [])
+            if c < 0.6:
+                return ("fn", "in", [("hdr", r.choice(NUMH)), ("str", r.choice(["1|5|10", "0|2|3", "9"]))], [])
+            # mixed option sets: literal lists, other headers of the line, string variables
+            opts = []
+            for _ in range(r.randint(1, 3)):
+                k = r.random()
+                if k < 0.35:
+                    opts.append(("str", r.choice(["abc|x", "Q|ab|zz", "x", "zz"])))
+                elif k < 0.8 or not self.svars:
+                    opts.append(("hdr", r.choice(STRH + ["a", "b"])))
+                else:
+                    opts.append(("var", r.choice(self.svars), None))
+            return ("fn", "in", [("hdr", r.choice(STRH + ["a"]))] + opts, [])
         if f in ("empty", "exists"):
             return ("fn", f, [("hdr", r.choice(ALLH + ["3", "4"]))], [])
         if f in ("all", "missing"):
@@ -272,6 +289,11 @@ class Gen:
             name = self.fresh("n")
             val = ("fn", "count", [], [])
             kind = "n"
+        if r.random() < 0.06:
+            if r.random() < 0.5:
+                name, kind, val = self.fresh("s"), "s", ("fn", "header_name", [("int", r.choice([0, 1, 2, 3, 6]))], [])
+            else:
+                name, kind, val = self.fresh("n"), "n", ("fn", "header_index", [("str", r.choice(["a", "b", "d", "zz"]))], [])
         if r.random() < 0.15 and val[1:2] != ("count",):
             tracking = r.choice(["k1", "k2"])
         node = ("assign", name, tracking, list(quals), val)
@@ -342,6 +364,15 @@ class Gen:
                 if not onm and not implicit_onmatch:
                     self.note_var(name, kind, tr)
             elif "assign" in f and c < 0.32:
+                if r.random() < 0.25:
+                    # put(): the dynamic form of an assignment, as the action of a '->'
+                    if r.random() < 0.6:
+                        name, args, kind = self.fresh("n"), [("int", r.choice(INT_TERMS))], "n"
+                    else:
+                        name, args, kind = self.fresh("s"), [("str", r.choice(STR_TERMS))], "s"
+                    tr = r.choice([None, None, "k1"])
+                    comps.append(("when", self.boolv(2), ("fn", "put", [("str", name)] + ([("str", tr)] if tr else []) + args, [])))
+                    continue
                 node, name, kind, tr = self.assignment(allow_count=False)
                 comps.append(("when", self.boolv(2), node))
             elif "agg" in f and c < 0.5:
@@ -356,6 +387,18 @@ class Gen:
                 comps.append(self.printc(onm))
             else:
                 comps.append(self.boolv(3))
+        if "rewrite" in f and r.random() < 0.3:
+            # line-rewriting / projecting functions (only used by relational checks: no reference semantics needed)
+            k = r.choice(["collect", "collect", "collecti", "replace", "append"])
+            if k == "collect":
+                node = ("fn", "collect", [("hdr", h) for h in r.sample(["a", "b", "c", "d"], r.randint(1, 3))], [])
+            elif k == "collecti":
+                node = ("fn", "collect", [("int", i) for i in sorted(r.sample([0, 1, 2, 3, 4], r.randint(1, 3)))], [])
+            elif k == "replace":
+                node = ("fn", "replace", [("hdr", r.choice(["a", "c", "d"])), r.choice([("str", "zz"), ("fn", "line_number", [], [])])], [])
+            else:
+                node = ("fn", "append", [("str", "extra_h"), r.choice([("fn", "line_number", [], []), ("str", "x")])], [])
+            comps.insert(r.randint(0, len(comps)), node)
         if "control" in f and r.random() < 0.25 and mode == "AND":
             comps.append(("when", ("fn", "last", [], []), r.choice([self.printc([]), ("fn", "push", [("str", "L"), ("fn", "line_number", [], [])], [])])))
         return {"scan": scan or self.scan(), "comps": comps, "mode": mode}
